@@ -296,7 +296,7 @@ pub fn judge(case: &Case, ctx: &Ctx) -> Outcome {
   } else {
     None
   };
-  Outcome { verdict, nontrivial: nt, hash: hash_of(case), labels, desc }
+  Outcome { verdict, nontrivial: nt, hash: hash_of(case), labels, notes: vec![], desc }
 }
 
 fn excluded(case: &Case, ctx: &Ctx) -> bool {
